@@ -1479,8 +1479,8 @@ class Executor(object):
         c = Ctx(self, bound, pre_heap, st.heap, case=case)
         c.fp = st.fp
         c.aux = st.aux
-        for f in case.setup(c):
-            st.assume(f)
+        # (the callee's `setup` facts -- definitions of spec functions it needs for its own proof --
+        # are not imported: its ensures are what the caller sees)
         for (label, f) in case.requires(c):
             self.oblige(st, 'call-pre', '%s/%s@L%d' % (qualname.split('.')[-1], label, node.lineno), f, node)
         for x in c.extra:
